@@ -258,13 +258,16 @@ func (C19) Explore(x *kernel.Explorer, seed uint64) {
 			"mixed": int64(r.Intn(4) / 3), "type2": int64(r.Intn(4)), "policy2": int64(r.Intn(4)), "valseed": int64(r.Intn(8))}}
 		n := 1 + r.Intn(4)
 		for j := 0; j < n; j++ {
-			plan.Ops = append(plan.Ops, kernel.Op{ID: j + 1, Kind: "row", A: []int64{int64(r.Intn(8))}})
+			plan.Ops = append(plan.Ops, kernel.Op{ID: j + 1, Kind: "row", A: []int64{int64(r.Intn(9))}})
 		}
 		x.Exec(plan)
 	}
 }
 
 func c19Value(typ string, k int, row int) string {
+	if k%9 == 8 && (typ == "str" || typ == "bytes") {
+		return "" // the empty value
+	}
 	switch typ {
 	case "int32":
 		return []string{"0", "1", "-1", "2147483647", "-2147483648", "1100000007", "42", "-99999"}[k%8]
@@ -448,6 +451,18 @@ func (C19) Run(t *testing.T, plan *kernel.Plan, keepLog bool) *kernel.Result {
 					continue // the owner's write of this row failed (reported above)
 				}
 				stored := t1.Rows[i][2]
+				if len(stored) == 0 && policy == "error" && i > 0 {
+					continue // statements after an error-policy failure are a known finding of their own
+				}
+				if len(stored) == 0 {
+					// the empty value is stored as it is (nothing to protect): every reader gets it back
+					// (in PostgreSQL's text format an empty bytea is spelled \x)
+					emptyBytea := !mysql && format == 0 && string(cell) == "\\x" && fieldOID(res, 2) == 17
+					if res.Err != "" || (len(cell) != 0 && !emptyBytea) {
+						w.Violate("C19", "empty-value-stays-empty", psite, fmt.Sprintf("reader got %.40q (err %q) for an empty stored cell", cell, res.Err))
+					}
+					continue
+				}
 				switch policy {
 				case "error":
 					if res.Err == "" && i == 0 {
